@@ -2486,6 +2486,10 @@ class PyCdlib:
         if self.eltorito_boot_catalog is not None:
             for rec in self.eltorito_boot_catalog.dirrecords:
                 if id(rec) == id(found_file_entry):
+                    # The catalog records where the boot files are, so they
+                    # have to be assigned their extents first.
+                    if self._needs_reshuffle:
+                        self._reshuffle_extents()
                     recdata = self.eltorito_boot_catalog.record()
                     outfp.write(recdata)
                     utils.zero_pad(outfp, len(recdata), self.logical_block_size)
@@ -2569,6 +2573,10 @@ class PyCdlib:
                 if isinstance(rec, udfmod.UDFFileEntry):
                     continue
                 if rec.file_ident == found_record.file_ident and rec.parent == found_record.parent:
+                    # The catalog records where the boot files are, so they
+                    # have to be assigned their extents first.
+                    if self._needs_reshuffle:
+                        self._reshuffle_extents()
                     recdata = self.eltorito_boot_catalog.record()
                     outfp.write(recdata)
                     utils.zero_pad(outfp, len(recdata), self.logical_block_size)
